@@ -12,7 +12,10 @@ DRIVER = "TraitsVerif/Driver/Sync.lean"
 PROPS_MODULES = ["TraitsVerif.Props.C20"]
 TRANSLATORS = []
 RULE = ("seeded two-sided histories of 1-12 commands on 2-5 real HasTraits objects with scalar traits x, y and "
-        "List traits l, m: assignment (valid / invalid) to either side, every list mutator of seqlib.random_op "
+        "List traits l, m (and, in a quarter of the cases, classes of seven other shapes: List traits under different "
+        "names with partial overlaps - a name that is a List trait in one class, a scalar trait in another, absent in a "
+        "third -, names containing `_items`; a hub List trait with two or three List partners, removal of one link "
+        "among several, in-place mutations of the hub before and after): assignment (valid / invalid) to either side, every list mutator of seqlib.random_op "
         "(extended slices with negative steps, sort, reverse, *=) on either list, whole-list assignment, "
         "sync_trait add / remove at any point (mutual / one-way, alias names, two partners, chains, occasionally "
         "cycles, self links and cross-kind links), `del partner; gc.collect()` at any point followed by a fresh "
@@ -62,6 +65,15 @@ def corpus():
         "sy|int:int:int:int,int:int:int:int,int:int:int:int|li 0 l 1 l 1;un 0 l 1 l 1;li 0 l 1 x 0;li 0 l 2 l 1;mu 0 l ap 1",
         "sy|int:int:int:int,int:int:int:int,int:int:int:int,int:int:int:int|li 0 l 1 l 0;li 0 l 2 x 0;li 0 l 3 l 0;un 0 l 2 x 0;"
         "mu 0 l ap 1;un 0 l 1 l 0;mu 0 l ap 2;un 0 l 3 l 0;mu 0 l ap 3;li 0 l 2 x 0;li 0 l 1 l 0;mu 0 l ap 4",
+        # hub with List partners under other names; the partner that stays has no List trait named like the
+        # removed alias (m is a scalar there / absent): the items handler must stay
+        "sy|x=int:l=*int:n=*int,x=int:m=*int:n=int,y=int:n=*int:m=int:menu=int|li 0 l 1 m 1;li 0 l 2 n 1;as 0 l [1,2,3];"
+        "un 0 l 1 m 1;mu 0 l ap 4;mu 0 l ds N N 2;mu 2 n ia [7];un 0 l 2 n 1;mu 0 l ap 5",
+        # a List trait whose name contains `_items` (its items event is `menu_items_items`), next to a synchronised
+        # scalar trait `menu`
+        "sy|x=int:menu_items=*int:menu=int,x=int:menu_items=*int:menu=int,x=int:menu=*int:n=*int|li 0 menu_items 1 menu_items 1;"
+        "li 0 menu 1 menu 1;li 0 menu_items 2 menu 0;mu 0 menu_items ap 1;mu 1 menu_items ex [2,3];as 0 menu 5;"
+        "mu 0 menu_items ss N N 2 [8,9];mu 2 menu ap 4",
         # stale items handler after the partner died: later links still propagate
         "sy|int:int:int:int,int:int:int:int,int:int:int:int,int:int:int:int|li 0 l 1 l 0;ki 1;li 0 l 2 x 0;li 0 l 3 l 0;mu 0 l ap 1",
     ]
@@ -69,13 +81,15 @@ def corpus():
 
 def generate(rng, tier):
     if tier == "quick":
-        n, ngc = 1800, 40
+        n, ngc = 1500, 40
     elif tier == "thorough":
-        n, ngc = 40000, 3000
+        n, ngc = 32000, 3000
     else:
-        n, ngc = 12000, 800
+        n, ngc = 10000, 800
     for _ in range(n):
         yield L.random_history(rng, gc_heavy=(rng.random() < 0.3))
+    for _ in range(n // 3):
+        yield L.random_shape_history(rng)
     for _ in range(ngc):
         base = L.random_history(rng, maxcmds=9)
         yield from L.with_gc_everywhere(base)
@@ -133,21 +147,29 @@ class _Guard:
         sys.setrecursionlimit(self.base)
 
 
-def _attach(o, rec, guard):
+def _attach(o, rec, guard, spec):
+    # two handlers: the name alone does not tell a trait `menu_items` from the items event of a trait `menu`
     def h(obj, name, old, new):
         guard.tick()
-        if name.endswith("_items"):
-            rec[name].append((new.index, list(new.removed), list(new.added)))
-        else:
-            rec[name].append((_copy(old), _copy(new)))
-    for n in L.NAMES:
+        rec[("t", name)].append((_copy(old), _copy(new)))
+
+    def hi(obj, name, old, new):
+        guard.tick()
+        rec[("i", name[:-6])].append((new.index, list(new.removed), list(new.added)))
+    for n in L.names(spec):
         o.on_trait_change(h, n)
-    for n in L.LISTS:
-        o.on_trait_change(h, n + "_items")
+    for n in L.lists(spec):
+        o.on_trait_change(hi, n + "_items")
 
 
-def _state(o):
-    return {n: _copy(getattr(o, n)) for n in L.NAMES}
+def _new_rec(spec):
+    r = {("t", n): [] for n in L.names(spec)}
+    r.update({("i", n): [] for n in L.lists(spec)})
+    return r
+
+
+def _state(o, spec):
+    return {n: _copy(getattr(o, n)) for n in L.names(spec)}
 
 
 def _locks(o):
@@ -180,17 +202,20 @@ def _dead_entries(o):
     return [(name, alias) for name, dic in t.items() if name != "" for (ref, alias) in dic.values() if ref() is None]
 
 
-def _show_obj(o, rec, spec=None):
+def _show_obj(o, rec, spec):
     if o is None:
         return "dead"
     if o is UNBORN:
-        d = ["s0" if k == "str" else "0" for k in spec[:2]]
-        return "x=%s,y=%s,l=[],m=[],c=000000,k=-" % (d[0], d[1])
-    st = _state(o)
-    c = "".join(_digit(len(rec[k])) for k in ("x", "y", "l", "m", "l_items", "m_items"))
-    lk = _locks(o)
-    return "x=%s,y=%s,l=%s,m=%s,c=%s,k=%s" % (L.show_val(st["x"]), L.show_val(st["y"]), L.show_val(st["l"]),
-                                             L.show_val(st["m"]), c, "+".join(lk) if lk else "-")
+        st = {n: ([] if il else ("0" if k == "str" else 0)) for n, il, k in spec}
+        cnt = "0" * (len(spec) + len(L.lists(spec)))
+        lk = []
+    else:
+        st = _state(o, spec)
+        cnt = "".join(_digit(len(rec[("t", n)])) for n in L.names(spec)) + \
+            "".join(_digit(len(rec[("i", n)])) for n in L.lists(spec))
+        lk = _locks(o)
+    return "%s,c=%s,k=%s" % (",".join("%s=%s" % (n, L.show_val(st[n])) for n in L.names(spec)), cnt,
+                             "+".join(lk) if lk else "-")
 
 
 def _reach(edges, start):
@@ -215,7 +240,8 @@ def _has_cycle(edges, comp):
 
 
 def _kind(specs, pair):
-    return ("L:" if pair[1] in L.LISTS else "S:") + specs[pair[0]][L.NAMES.index(pair[1])]
+    _, il, kind = L.decl(specs[pair[0]], pair[1])
+    return ("L:" if il else "S:") + kind
 
 
 def _uniform(specs, pairs):
@@ -244,7 +270,7 @@ def run_impl(case):
     from traits.api import push_exception_handler, pop_exception_handler
     _, specs, cmds = L.parse_case(case)
     objs = [UNBORN for _ in specs]
-    recs = [{k: [] for k in L.NAMES + tuple(n + "_items" for n in L.LISTS)} for _ in objs]
+    recs = [_new_rec(sp) for sp in specs]
     guard = _Guard()
     swallowed = []
     push_exception_handler(lambda obj, name, old, new: swallowed.append(S.exc_name(sys.exc_info()[1])),
@@ -272,7 +298,7 @@ def _run(specs, cmds, objs, recs, swallowed, guard):
     def born(i):
         if objs[i] is UNBORN:
             objs[i] = L.make_class(specs[i])()
-            _attach(objs[i], recs[i], guard)
+            _attach(objs[i], recs[i], guard, specs[i])
 
     for ci, cmd in enumerate(cmds):
         k = cmd[0]
@@ -291,7 +317,7 @@ def _run(specs, cmds, objs, recs, swallowed, guard):
             if k in ("li", "un"):
                 born(cmd[3])
         alive = [i for i, o in enumerate(objs) if _live(o)]
-        before = {i: _state(objs[i]) for i in alive}
+        before = {i: _state(objs[i], specs[i]) for i in alive}
         exc = None
         ret = None
         try:
@@ -334,7 +360,7 @@ def _run(specs, cmds, objs, recs, swallowed, guard):
         except Exception as e:
             exc = e
         alive2 = [i for i, o in enumerate(objs) if _live(o)]
-        after = {i: _state(objs[i]) for i in alive2}
+        after = {i: _state(objs[i], specs[i]) for i in alive2}
         res = "ok" if exc is None else "err:" + S.exc_name(exc)
         if exc is None and ret is not None:
             res = "ok=%s" % L.show_scalar(ret)
@@ -347,7 +373,10 @@ def _run(specs, cmds, objs, recs, swallowed, guard):
             return st[pair[0]][pair[1]]
 
         def calls(pair, items=False):
-            return recs[pair[0]][pair[1] + ("_items" if items else "")]
+            return recs[pair[0]][("i" if items else "t", pair[1])]
+
+        def islist(pair):
+            return L.is_list(specs[pair[0]], pair[1])
 
         sfx = ":after-partner-gc" if killed else ""
         # (1) lock tables are empty between commands, nothing was swallowed by the notifier machinery
@@ -361,10 +390,10 @@ def _run(specs, cmds, objs, recs, swallowed, guard):
         if k == "ki":
             D = {(a, b) for (a, b) in D if a[0] != cmd[1] and b[0] != cmd[1]}
             U = {(a, b) for (a, b) in U if a[0] != cmd[1] and b[0] != cmd[1]}
-        allpairs = [(i, n) for i in alive2 for n in L.NAMES]
+        allpairs = [(i, n) for i in alive2 for n in L.names(specs[i])]
         changed = [p for p in allpairs if p[0] in before and val(before, p) != val(after, p)]
-        called = [p for p in allpairs if calls(p) or (p[1] in L.LISTS and calls(p, True))]
-        runaway = [p for p in allpairs if len(calls(p)) > 8 or (p[1] in L.LISTS and len(calls(p, True)) > 8)]
+        called = [p for p in allpairs if calls(p) or (islist(p) and calls(p, True))]
+        runaway = [p for p in allpairs if len(calls(p)) > 8 or (islist(p) and len(calls(p, True)) > 8)]
         if runaway or guard.tripped:
             hits.append(_hit("sync-runaway-propagation", "more than 8 handler calls on one trait for one command",
                              pairs=runaway, command=cmd))
@@ -383,6 +412,7 @@ def _run(specs, cmds, objs, recs, swallowed, guard):
                     U.discard((q, p))
             continue
         p = (cmd[1], cmd[2])
+        D0 = set(D)
         spec_p = specs[p[0]]
         opk = k
         starts = [p]
@@ -400,7 +430,7 @@ def _run(specs, cmds, objs, recs, swallowed, guard):
             op = cmd[3]
             opk = "mu:" + op[0] + ("-ext" if op[0] in ("ss", "ds") and abs(op[1].step or 1) > 1 else "")
             tags.add(opk)
-            kind = spec_p[L.NAMES.index(p[1])]
+            kind = L.kind_of(spec_p, p[1])
             shadow = list(val(before, p))
             vop = None
             try:
@@ -434,8 +464,9 @@ def _run(specs, cmds, objs, recs, swallowed, guard):
             q = (cmd[3], cmd[4])
             mutual = bool(cmd[5])
             tags.add("li:" + ("mutual" if mutual else "oneway") + (":alias" if p[1] != q[1] else "")
-                     + (":self" if p[0] == q[0] else "") + (":cross" if (p[1] in L.LISTS) != (q[1] in L.LISTS) else ""))
-            if (p[1] in L.LISTS) != (q[1] in L.LISTS):
+                     + (":self" if p[0] == q[0] else "") + (":cross" if islist(p) != islist(q) else "")
+                     + (":othername" if islist(p) and islist(q) and p[1] != q[1] and p[0] != q[0] else ""))
+            if islist(p) != islist(q):
                 crossed.update((p, q))
             # what the documented behaviour needs to assign: partner := own value (then, mutual, own := partner's)
             cur = {p: val(before, p), q: val(before, q)}
@@ -497,7 +528,7 @@ def _run(specs, cmds, objs, recs, swallowed, guard):
             for (o, n) in cs:
                 chain_ok = chain_ok and o == cur
                 cur = n
-            if r[1] in L.LISTS:
+            if islist(r):
                 ev = calls(r, True)
                 if ev and cs:
                     chain_ok = False
@@ -521,7 +552,7 @@ def _run(specs, cmds, objs, recs, swallowed, guard):
         if tainted:
             continue
         if uniform:
-            twice = [r for r in comp if len(calls(r)) > 1 or (r[1] in L.LISTS and len(calls(r, True)) > 1)]
+            twice = [r for r in comp if len(calls(r)) > 1 or (islist(r) and len(calls(r, True)) > 1)]
             if twice and not (cyc and k == "mu"):
                 hits.append(_hit("sync-notified-twice:%s" % opk, "one change, several handler calls on the same trait",
                                  pairs=twice, command=cmd))
@@ -530,7 +561,7 @@ def _run(specs, cmds, objs, recs, swallowed, guard):
         ext = bool(ev_p) and isinstance(ev_p[0][0], slice)
         if ext:
             tags.add("ev-slice")
-        cross = any((x[1] in L.LISTS) != (y[1] in L.LISTS) for (x, y) in E if x in comp)
+        cross = any(islist(x) != islist(y) for (x, y) in E if x in comp)
         for (a, b) in sorted(D):
             if a not in comp or a[0] not in after or b[0] not in after:
                 continue
@@ -539,7 +570,7 @@ def _run(specs, cmds, objs, recs, swallowed, guard):
                 # equal idempotent kind, both lists equal before an in-place mutation of one of them, whose
                 # trait also has (or had registered, by a call that raised) a partner that is not a List trait
                 if (k == "mu" and (cross or p in crossed) and (b, a) in D and a < b and p in (a, b) and ev_p
-                        and _uniform(specs, {a, b}) and a[1] in L.LISTS
+                        and _uniform(specs, {a, b}) and islist(a)
                         and val(before, a) == val(before, b) and val(after, a) != val(after, b)
                         and not calls(b if p == a else a, True)):
                     tainted = True
@@ -552,7 +583,14 @@ def _run(specs, cmds, objs, recs, swallowed, guard):
             if mutual_link:
                 if a > b:
                     continue
-                bad = val(after, a) != val(after, b)
+                # sides that differed already (a divergence that arose while the component was outside the
+                # checked scope, e.g. mixed validators or a cycle with a partner that died since) are not this
+                # command's doing - unless the command itself must make them equal: an assignment that changes
+                # one of the two sides, or the call that creates the link
+                was_equal = (a[0] in before and b[0] in before and val(before, a) == val(before, b))
+                forces = ((k == "as" and p in (a, b) and p in changed)
+                          or (k == "li" and {a, b} == {p, (cmd[3], cmd[4])} and ((a, b) not in D0 or (b, a) not in D0)))
+                bad = val(after, a) != val(after, b) and (was_equal or forces)
             else:
                 # one-way: the source's change must arrive; a change of the target must not come back (checked by (2))
                 src_changed = a in starts or a == p
